@@ -179,26 +179,51 @@ open Ens
 /-- One `adjust_tasks`, as sets of keys: what stays is what was there and is not redundant; what is
     added is exactly the missing targets. -/
 theorem adjust_keys (e : Ensemble) (ins : Insights) (k : Key) :
-    k ∈ (adjust e ins).keys ↔ (k ∈ e.keys ∧ remaining ins k = true) ∨ Target ins k :=
+    k ∈ (adjust e ins).keys ↔ (Live e k ∧ remaining ins k = true) ∨ Target ins k :=
   adjust_keys_iff
 
-/-- **At most one watch per key**, for every history. -/
-theorem watchers_nodup (hist : List Insights) : (runHist Ens.empty hist).keys.Nodup :=
-  runHist_nodup (by simp [Ens.empty, Ensemble.keys])
+/-- **At most one watch per key**, for every history of revisions and of tasks dying on their own. -/
+theorem watchers_nodup (evs : List Ev) : (runEvs Ens.empty evs).keys.Nodup :=
+  runEvs_nodup (by simp [Ens.empty, Ensemble.keys])
 
-/-- A watch that stays served is not restarted (same task), and every new task is fresh. -/
+/-- A watch that stays served and is still running is not restarted (same task); every other task of
+    the result is fresh. -/
 theorem kept_tasks_kept (e : Ensemble) (ins : Insights) :
-    (∀ t ∈ e.watchers, remaining ins t.1 = true → t ∈ (adjust e ins).watchers) ∧
-    (∀ t ∈ (adjust e ins).watchers, (t ∈ e.watchers ∧ remaining ins t.1 = true) ∨ e.next ≤ t.2) := by
+    (∀ t ∈ e.watchers, remaining ins t.1 = true → t.2 ∉ e.dead → t ∈ (adjust e ins).watchers) ∧
+    (∀ t ∈ (adjust e ins).watchers, (t ∈ e.watchers ∧ remaining ins t.1 = true ∧ t.2 ∉ e.dead) ∨ e.next ≤ t.2) := by
   unfold adjust
   obtain ⟨h1, h2⟩ := @spawn_watchers (pairs ins) (terminate e ins)
   constructor
-  · intro t ht hr
-    exact h1 t (terminate_watchers.mpr ⟨ht, hr⟩)
+  · intro t ht hr hd
+    exact h1 t (terminate_watchers.mpr ⟨ht, hr, hd⟩)
   · intro t ht
     rcases h2 t ht with h | h
     · exact Or.inl (terminate_watchers.mp h)
     · exact Or.inr h
+
+/-- **After a pass every served pair has a live watcher, and no dead task is left** — for every history
+    in which watcher tasks may die on their own (HTTP 404 while a CRD is away, …) at any time between
+    the passes: a dead task under a still-served key is replaced, not kept (kopf 9ef1bcb; before it the
+    key of the dead task blocked the respawn: C19-F4). -/
+theorem served_pairs_have_live_watcher (evs : List Ev) (ins : Insights) :
+    let e := runEvs Ens.empty (evs ++ [.pass ins])
+    (∀ k, Target ins k → Live e k) ∧ (∀ t ∈ e.watchers, t.2 ∉ e.dead) := by
+  intro e
+  have he : e = adjust (runEvs Ens.empty evs) ins := runEvs_append _ _ _
+  have hb : Below (runEvs Ens.empty evs) := below_runEvs below_empty
+  have hall := adjust_all_live hb ins
+  rw [← he] at hall
+  refine ⟨?_, hall⟩
+  intro k hk
+  have hmem : k ∈ e.keys := by rw [he]; exact adjust_keys_iff.mpr (Or.inr hk)
+  obtain ⟨i, hi⟩ := mem_keys.mp hmem
+  exact ⟨i, hi, hall (k, i) hi⟩
+
+/-- the C19-F4 situation: the CRD goes away, the watcher dies on 404, the CRD is back before any pass
+    has seen it absent — the next pass replaces the dead task (task 0 → task 1) -/
+example :
+    let e := runEvs Ens.empty [.pass ⟨[⟨"ct", false⟩], [some "a"]⟩, .die ("ct", none), .pass ⟨[⟨"ct", false⟩], [some "a"]⟩]
+    e.watchers = [(("ct", none), 1)] ∧ e.dead = [0] := by decide
 
 /-- the operator serves the whole cluster: `insights.namespaces = {None}` at every revision -/
 def Clusterwide (h : List Insights) : Prop := ∀ ins ∈ h, ins.namespaces = [none]
@@ -215,21 +240,21 @@ def ScopeStable (h : List Insights) : Prop :=
     Full statement wanted by the property: the same without the guard "some namespace is served or no
     served resource is cluster-scoped". That is false of the code: `terminate_redundancies` always keeps
     namespace `None` (`insights.namespaces | {None}`), see `exactly_one_watch_lingering_witness`. -/
-theorem exactly_one_watch_partial (pre : List Insights) (last : Insights)
-    (hscope : ScopeStable (pre ++ [last]))
-    (hmode : Clusterwide (pre ++ [last]) ∨
-      (Namespaced (pre ++ [last]) ∧ (last.namespaces ≠ [] ∨ ∀ r ∈ last.watched, r.namespaced = true)))
+theorem exactly_one_watch_partial (pre : List Ev) (last : Insights)
+    (hscope : ScopeStable (pre.flatMap Ev.insights ++ [last]))
+    (hmode : Clusterwide (pre.flatMap Ev.insights ++ [last]) ∨
+      (Namespaced (pre.flatMap Ev.insights ++ [last]) ∧ (last.namespaces ≠ [] ∨ ∀ r ∈ last.watched, r.namespaced = true)))
     (k : Key) :
-    k ∈ (runHist Ens.empty (pre ++ [last])).keys ↔ Target last k := by
-  rw [runHist_append, adjust_keys_iff]
+    k ∈ (runEvs Ens.empty (pre ++ [.pass last])).keys ↔ Target last k := by
+  rw [runEvs_append, adjust_keys_iff]
   constructor
   · rintro (⟨hk, hr⟩ | h)
     · obtain ⟨ins0, hi0, r0, hr0, n0, hn0, hk0⟩ :=
-        origin (hist0 := []) (hist := pre) (e := Ens.empty) (by simp [Ens.empty, Ensemble.keys]) k hk
+        origin (hist0 := []) (evs := pre) (e := Ens.empty) (by simp [Ens.empty, Ensemble.keys]) k (live_mem_keys hk)
       simp only [List.nil_append] at hi0
       obtain ⟨hns, r, hrw, hname⟩ := remaining_iff.mp hr
-      have hi0' : ins0 ∈ pre ++ [last] := List.mem_append_left _ hi0
-      have hl' : last ∈ pre ++ [last] := by simp
+      have hi0' : ins0 ∈ pre.flatMap Ev.insights ++ [last] := List.mem_append_left _ hi0
+      have hl' : last ∈ pre.flatMap Ev.insights ++ [last] := by simp
       have hsc : r0.namespaced = r.namespaced :=
         hscope ins0 hi0' last hl' r0 hr0 r hrw (by rw [hname, hk0]; rfl)
       subst hk0
@@ -265,10 +290,11 @@ theorem exactly_one_watch_partial (pre : List Insights) (last : Insights)
 
 /-- the hypotheses are met by a namespaced operator whose namespaces and kinds come and go -/
 example :
-    let pre : List Insights := [⟨[⟨"kex", true⟩, ⟨"ct", false⟩], [some "a", some "b"]⟩, ⟨[⟨"ct", false⟩], [some "a"]⟩]
+    let pre : List Ev := [.pass ⟨[⟨"kex", true⟩, ⟨"ct", false⟩], [some "a", some "b"]⟩, .die ("kex", some "b"),
+                          .pass ⟨[⟨"ct", false⟩], [some "a"]⟩]
     let last : Insights := ⟨[⟨"kex", true⟩, ⟨"ct", false⟩], [some "b"]⟩
-    ScopeStable (pre ++ [last]) ∧ Namespaced (pre ++ [last]) ∧ last.namespaces ≠ [] ∧
-    (runHist Ens.empty (pre ++ [last])).watchers = [(("ct", none), 2), (("kex", some "b"), 3)] := by
+    ScopeStable (pre.flatMap Ev.insights ++ [last]) ∧ Namespaced (pre.flatMap Ev.insights ++ [last]) ∧ last.namespaces ≠ [] ∧
+    (runEvs Ens.empty (pre ++ [.pass last])).watchers = [(("ct", none), 2), (("kex", some "b"), 3)] := by
   refine ⟨?_, ?_, by decide, by decide⟩
   · unfold ScopeStable; decide
   · unfold Namespaced; decide
@@ -344,11 +370,13 @@ theorem exactly_one_watch_async_partial (ls : List Orch.Label) (s : Orch.State)
       ((∀ i ∈ s.revs, none ∉ i.namespaces) ∧ (s.ins.namespaces ≠ [] ∨ ∀ r ∈ s.ins.watched, r.namespaced = true)))
     (k : Key) : k ∈ s.ens.keys ↔ Target s.ins k := by
   obtain ⟨pre, he, hin⟩ := no_lost_wakeup ls s hr hq hrev
-  rw [he]
-  apply exactly_one_watch_partial pre s.ins
-  · intro i hi j hj
+  rw [he, runHist_eq_runEvs, List.map_append, List.map_cons, List.map_nil]
+  apply exactly_one_watch_partial (pre.map Ev.pass) s.ins
+  · rw [flatMap_insights_map_pass]
+    intro i hi j hj
     exact hscope i (hin i hi) j (hin j hj)
-  · rcases hmode with hc | ⟨hn, hg⟩
+  · rw [flatMap_insights_map_pass]
+    rcases hmode with hc | ⟨hn, hg⟩
     · exact Or.inl (fun i hi => hc i (hin i hi))
     · exact Or.inr ⟨fun i hi => hn i (hin i hi), hg⟩
 
